@@ -6,7 +6,9 @@ CONSTANTS
   FlagFix <- TrFlagFix
   BetFix <- TrBetFix
   LibFileKey <- TrKey
+  ListfileAttrSource = "attrs"
 INIT Init
 NEXT Next
+INVARIANT HistoryDeterminesOpts
 POSTCONDITION Accepted
 CHECK_DEADLOCK FALSE
